@@ -37,6 +37,31 @@ class Intersector:
         """
         raise NotImplementedError
 
+    def _startTraces(self, trace0, trace1):
+        """Strip the headers off the first (non-empty) batch of traces"""
+        if not self.started and trace0:
+            self.started = True
+
+            self.num_ranks = (len(trace0[0]) - 1) // 2
+
+            trace0 = trace0[1:]
+            trace1 = trace1[1:]
+
+        return trace0, trace1
+
+    def _splitFibers(self, trace):
+        """Split a batch of trace entries into the coordinates of each fiber
+
+        No comparison may span two fibers, so each fiber (identified by the
+        coordinates of the ranks above it) is intersected on its own
+        """
+        fibers = {}
+        for entry in trace:
+            point = entry[self.num_ranks:self.num_ranks * 2]
+            fibers.setdefault(tuple(point[:-1]), []).append(point[-1])
+
+        return fibers
+
     def getNumIntersects(self):
         """Get the number of intersection tests performed so far
 
@@ -104,81 +129,43 @@ class SkipAheadIntersector(Intersector):
         """
         assert len(traces) == 2
 
-        trace0 = traces[0]
-        trace1 = traces[1]
+        trace0, trace1 = self._startTraces(traces[0], traces[1])
 
-        # Throw away the header, since we don't need it
-        if not self.started and trace0:
-            self.started = True
-
-            self.num_ranks = (len(trace0[0]) - 1) // 2
-
-            trace0 = trace0[1:]
-            trace1 = trace1[1:]
-
-        i0 = -1
-        i1 = -1
-
-        def get_next(trace, i):
-            if i + 1 < len(trace):
-                return trace[i + 1][self.num_ranks:self.num_ranks * 2], i + 1
-            return None, None
-
-        point0, i0 = get_next(trace0, i0)
-        point1, i1 = get_next(trace1, i1)
-
-        if point0 is None or point1 is None:
+        if not self.started:
             return
 
-        assert point0 is not None and point1 is not None and point0[:-1] == point1[:-1]
+        fibers0 = self._splitFibers(trace0)
+        fibers1 = self._splitFibers(trace1)
 
-        fiber = point0[:-1]
-        curr = None
+        for fiber, coords0 in fibers0.items():
+            coords1 = fibers1.get(fiber, [])
 
-        while point0 and point1:
-            if point0 == point1:
-                self.num_intersects += 1
-                curr = None
+            i0 = 0
+            i1 = 0
+            curr = None
 
-                point0, i0 = get_next(trace0, i0)
-                point1, i1 = get_next(trace1, i1)
-
-            elif point0 < point1:
-                if curr != 0:
-                    curr = 0
+            while i0 < len(coords0) and i1 < len(coords1):
+                if coords0[i0] == coords1[i1]:
                     self.num_intersects += 1
+                    curr = None
 
-                point0, i0 = get_next(trace0, i0)
+                    i0 += 1
+                    i1 += 1
 
-                # If we have reached the end of this iteration, forward the other
-                # finger to the next fiber
-                if point0 is None or fiber != point0[:-1]:
-                    point1, i1 = get_next(trace1, i1)
+                elif coords0[i0] < coords1[i1]:
+                    if curr != 0:
+                        curr = 0
+                        self.num_intersects += 1
 
-            # point0 > point1
-            else:
-                if curr != 1:
-                    curr = 1
-                    self.num_intersects += 1
+                    i0 += 1
 
-                point1, i1 = get_next(trace1, i1)
+                # coords0[i0] > coords1[i1]
+                else:
+                    if curr != 1:
+                        curr = 1
+                        self.num_intersects += 1
 
-                # If we have reached the end of this iteration, forward the other
-                # finger to the next fiber
-                if point1 is None or fiber != point1[:-1]:
-                    point0, i0 = get_next(trace0, i0)
-
-            old_fiber = fiber
-            if point0:
-                fiber = point0[:-1]
-            else:
-                fiber = None
-
-            # Do not need to check point1 because both fingers should fall of
-            # the end of the trace at the same time
-
-            if fiber != old_fiber:
-                curr = None
+                    i1 += 1
 
 class TwoFingerIntersector(Intersector):
     """Class for counting intersections with a two-finger-intersector"""
@@ -200,63 +187,30 @@ class TwoFingerIntersector(Intersector):
         """
         assert len(traces) == 2
 
-        trace0 = traces[0]
-        trace1 = traces[1]
+        trace0, trace1 = self._startTraces(traces[0], traces[1])
 
-        # Throw away the header, since we don't need it
         if not self.started:
-            self.started = True
-
-            self.num_ranks = (len(trace0[0]) - 1) // 2
-
-            trace0 = trace0[1:]
-            trace1 = trace1[1:]
-
-        i0 = -1
-        i1 = -1
-
-        def get_next(trace, i):
-            if i + 1 < len(trace):
-                return trace[i + 1][self.num_ranks:self.num_ranks * 2], i + 1
-            return None, None
-
-        point0, i0 = get_next(trace0, i0)
-        point1, i1 = get_next(trace1, i1)
-
-        if point0 is None or point1 is None:
             return
 
-        assert point0 is not None and point1 is not None and point0[:-1] == point1[:-1]
+        fibers0 = self._splitFibers(trace0)
+        fibers1 = self._splitFibers(trace1)
 
-        fiber = point0[:-1]
+        for fiber, coords0 in fibers0.items():
+            coords1 = fibers1.get(fiber, [])
 
-        while point0 and point1:
-            self.num_intersects += 1
+            i0 = 0
+            i1 = 0
 
-            if point0 == point1:
-                point0, i0 = get_next(trace0, i0)
-                point1, i1 = get_next(trace1, i1)
+            while i0 < len(coords0) and i1 < len(coords1):
+                self.num_intersects += 1
 
-            elif point0 < point1:
-                point0, i0 = get_next(trace0, i0)
+                if coords0[i0] == coords1[i1]:
+                    i0 += 1
+                    i1 += 1
 
-                # If we have reached the end of this iteration, forward the other
-                # finger to the next fiber
-                if point0 is None or fiber != point0[:-1]:
-                    point1, i1 = get_next(trace1, i1)
+                elif coords0[i0] < coords1[i1]:
+                    i0 += 1
 
-
-            # point0 > point1
-            else:
-                point1, i1 = get_next(trace1, i1)
-
-                # If we have reached the end of this iteration, forward the other
-                # finger to the next fiber
-                if point1 is None or fiber != point1[:-1]:
-                    point0, i0 = get_next(trace0, i0)
-
-            if point0:
-                fiber = point0[:-1]
-            else:
-                fiber = None
-
+                # coords0[i0] > coords1[i1]
+                else:
+                    i1 += 1
